@@ -489,34 +489,32 @@ Qed.
 Lemma visit_sched rc : forall pos bits s acc,
   exists ms, fst (visit rc pos bits s acc) = run_events rc s ms acc.
 Proof.
-  induction pos as [|[k gi] r IH]; intros bits s acc.
+  induction pos as [|[[k gi] w] r IH]; intros bits s acc.
   - exists []. reflexivity.
   - cbn [visit].
-    match goal with |- context [let '(_, _) := ?X in _] => destruct X as [b1 bits1] end.
-    destruct (micro rc s (MTicker k gi b1)) as [s1 e1] eqn:E1.
-    match goal with |- context [let '(_, _) := ?X in _] => destruct X as [b2 bits2] end.
-    destruct (micro rc s1 (MWorker k gi b2)) as [s2 e2] eqn:E2.
-    destruct (IH bits2 s2 (acc ++ e1 ++ e2)) as [ms Hms].
-    exists (MTicker k gi b1 :: MWorker k gi b2 :: ms). rewrite Hms.
-    cbn [run_events]. rewrite E1, E2. rewrite app_assoc. reflexivity.
+    match goal with |- context [let '(_, _) := ?X in _] => destruct X as [b bits1] end.
+    destruct (micro rc s (if w then MWorker k gi b else MTicker k gi b)) as [s1 e1] eqn:E1.
+    destruct (IH bits1 s1 (acc ++ e1)) as [ms Hms].
+    exists ((if w then MWorker k gi b else MTicker k gi b) :: ms). rewrite Hms.
+    cbn [run_events]. rewrite E1. reflexivity.
 Qed.
 
-Lemma settle_sched rc : forall fuel bits s acc,
-  exists ms, settle rc fuel bits s acc = run_events rc s ms acc.
+Lemma settle_sched rc : forall fuel ord bits s acc,
+  exists ms, settle rc fuel ord bits s acc = run_events rc s ms acc.
 Proof.
-  induction fuel as [|f IH]; intros bits s acc; simpl.
+  induction fuel as [|f IH]; intros ord bits s acc; simpl.
   - exists []. reflexivity.
   - destruct (quiet s); [exists []; reflexivity|].
-    destruct (visit_sched rc (inc_positions 0 (incs s)) bits s acc) as [ms1 H1].
-    destruct (visit rc (inc_positions 0 (incs s)) bits s acc) as [[s' acc'] bits'] eqn:Ev. simpl in H1.
-    destruct (IH bits' s' acc') as [ms2 H2].
+    destruct (visit_sched rc (reorder ord (goroutines s)) bits s acc) as [ms1 H1].
+    destruct (visit rc (reorder ord (goroutines s)) bits s acc) as [[s' acc'] bits'] eqn:Ev. simpl in H1.
+    destruct (IH ord bits' s' acc') as [ms2 H2].
     exists (ms1 ++ ms2). rewrite run_events_app. rewrite <- H1. exact H2.
 Qed.
 
-Lemma macro_sched rc s o choice bits : exists ms, macro rc s o choice bits = run_events rc s ms [].
+Lemma macro_sched rc s o choice ord bits : exists ms, macro rc s o choice ord bits = run_events rc s ms [].
 Proof.
   unfold macro. destruct (run_events rc s (action s o choice) []) as [s1 e1] eqn:E1.
-  destruct (settle_sched rc (settle_fuel s1) bits s1 e1) as [ms2 H2].
+  destruct (settle_sched rc (settle_fuel s1) ord bits s1 e1) as [ms2 H2].
   exists (action s o choice ++ ms2). rewrite run_events_app, E1. exact H2.
 Qed.
 
